@@ -667,7 +667,11 @@ func (l *List) CombineN(sta funcGen.Stack[Value]) (*List, error) {
 		}
 		return NewListFromIterable(func(st funcGen.Stack[Value]) iterator.Producer[Value] {
 			return iterator.CombineN[Value, Value](l.iterable(st), int(n), func(i0 int, i []Value) (Value, error) {
-				st.Push(NewList(i...))
+				// i is a ring buffer which is reused, i0 is the index of the oldest item
+				items := make([]Value, 0, len(i))
+				items = append(items, i[i0:]...)
+				items = append(items, i[:i0]...)
+				st.Push(NewList(items...))
 				return f.Func(st.CreateFrame(1), nil)
 			})
 		}), nil
